@@ -30,11 +30,11 @@ LANGID_RULE = ("suite `langid`: G2 token sequences (12 first tokens x boundary-c
                "case/separator masks; G4 1-3 edit mutations of them; from_parts with shuffled/duplicated variants; the C11 product domain "
                "(108 x 108 x 4 flag pairs); random parsed pairs for matches / cmp / == / hash / == &str. non-trivial = distinct (operation, input) pairs the model accepts")
 
-def run(suite, ops=None, features=(), only_panics=False):
-    d = {"suite": suite, "ops": ops, "features": list(features), "extra": (["--ops", ",".join(ops)] if ops else [])}
+def run(suite, ops=None, features=(), only_panics=False, profile="release", gen_ops=None):
+    d = {"suite": suite, "ops": ops, "features": list(features), "extra": (["--ops", ",".join(ops)] if ops else []), "profile": profile}
     if only_panics:
         d["only_panics"] = True
-        d["extra"] = []
+        d["extra"] = (["--ops", ",".join(gen_ops)] if gen_ops else [])
     return d
 
 LOCALE_RULE = ("suite `locale` (harness built with likelysubtags + hook): the regression corpus of minimised earlier failures first; every byte through "
@@ -49,9 +49,11 @@ LOCALE_RULE = ("suite `locale` (harness built with likelysubtags + hook): the re
 PROPS = {
     "C01": {
         "runs": lambda tier: [run("locale", features=["likely"], only_panics=True), run("langid", only_panics=True),
-                              run("subtags", only_panics=True), run("likely", features=["likely"], only_panics=True)],
+                              run("subtags", only_panics=True), run("likely", features=["likely"], only_panics=True),
+                              run("locale", features=["likely"], only_panics=True, profile="debug", gen_ops=["big"])],
         "rule": "all four suites (subtags, langid, locale, likely) under catch_unwind with a recording panic hook and a per-call watchdog; for C01 only panics, "
-                "hangs, aborts and the `big` (100k-subtag) cases count. " + LOCALE_RULE,
+                "hangs, aborts and the `big` (100k-subtag) cases count; the `big` cases are run a second time on an UNOPTIMISED build of the harness and library "
+                "(overflow checks on, no tail-call elimination: recursion depth and arithmetic overflow show up there). " + LOCALE_RULE,
     },
     "C03": {"runs": lambda tier: [run("locale", ops=["locale", "extmap", "ext_type"], features=["likely"])], "rule": LOCALE_RULE},
     "C04": {"runs": lambda tier: [run("locale", ops=["loc_canonicalize", "loc_hist"], features=["likely"]), run("langid", ops=["li_canonicalize", "langid", "li_from_parts"])],
